@@ -297,7 +297,7 @@ pub fn strategy() -> impl Strategy<Value = Case> {
     );
     let script = proptest::collection::vec(script_item, 4..10);
     let learn = proptest::collection::vec((0u8..3, any::<u16>()), 0..3);
-    let user_ac = prop_oneof![4 => Just(None), 1 => (any::<u8>(), proptest::sample::select(vec!["kkk".to_string(), "Onyo".to_string(), "amader".to_string()])).prop_map(Some)];
+    let user_ac = prop_oneof![4 => Just(None), 1 => (any::<u8>(), proptest::sample::select(vec!["kkk".to_string(), "Onyo".to_string(), "amader".to_string(), "\u{2705}".to_string(), "\u{1f600} ok".to_string(), "\u{0995}\u{09a5}\u{09be}".to_string(), ":)".to_string()])).prop_map(Some)];
     let inter = proptest::collection::vec((any::<u8>(), any::<u16>()), 0..3);
     (
         (any::<u8>(), base, sfx, wr, raw),
@@ -372,6 +372,24 @@ fn long_lived_case(c: &Case, lo: &mut LongLived, st: &mut Stats) -> Result<(), F
             lo.warm.update(lo.opts, &lo.sb).map_err(pf)?;
             lo.warm.type_text(&target).map_err(pf)?;
             lo.warm.finish().map_err(pf)?;
+            // while the entry is in force the context also composes the word under ONE other option value
+            // (ANSI, English, smart quotes or the list itself), and comes back
+            {
+                let mut other = lo.opts;
+                match which % 4 {
+                    0 => other.ansi = !other.ansi,
+                    1 => other.english = !other.english,
+                    2 => other.smart = !other.smart,
+                    _ => other.psug = false,
+                }
+                lo.warm.update(other, &lo.sb).map_err(pf)?;
+                lo.warm.type_text(&target).map_err(pf)?;
+                lo.warm.finish().map_err(pf)?;
+                lo.warm.update(lo.opts, &lo.sb).map_err(pf)?;
+                lo.warm.type_text(&target).map_err(pf)?;
+                lo.warm.finish().map_err(pf)?;
+                st.label("long-lived-context-composed-the-word-under-another-option-value-while-a-user-entry-was-in-force");
+            }
             if which % 2 == 0 {
                 write(json!({ "zzq": "boi" }), lo.clock + 10);
             } else {
@@ -392,9 +410,14 @@ fn long_lived_case(c: &Case, lo: &mut LongLived, st: &mut Stats) -> Result<(), F
         lo.warm.backspace(false).map_err(pf)?;
         lo.warm.finish().map_err(pf)?;
         let mut off = lo.opts;
-        off.psug = false;
+        let h = hash_of(&target);
+        match h % 4 {
+            0 | 1 => off.psug = false,
+            2 => off.ansi = !off.ansi,
+            _ => off.english = !off.english,
+        }
         lo.warm.update(off, &lo.sb).map_err(pf)?;
-        lo.warm.type_text(if c.base.is_empty() { "tumi" } else { &c.base }).map_err(pf)?;
+        lo.warm.type_text(if c.base.is_empty() { "tumi" } else if (h / 4) % 2 == 0 { &c.base } else { &target }).map_err(pf)?;
         lo.warm.finish().map_err(pf)?;
         lo.warm.update(lo.opts, &lo.sb).map_err(pf)?;
         st.label("long-lived-context-was-away-from-the-list");
